@@ -172,6 +172,8 @@ Fixpoint write_chars (m : memsys) (a : Z) (cs : str) : pres (memsys * Z) :=
 Definition strip_quotes (s : str) : str := removelast (tl s).
 
 Definition zero_elem_size (num_words : Z) : Z := 4.      (* element size recorded for .zero *)
+(* the data segment must end at or below the end of the address space (MemorySizeException otherwise) *)
+Definition data_limit : Z := 4294967296.
 
 Fixpoint write_data (data : list (Z * rline)) (m : memsys) (a : Z) (vars : vartab)
   : pres (memsys * vartab) :=
@@ -187,7 +189,9 @@ Fixpoint write_data (data : list (Z * rline)) (m : memsys) (a : Z) (vars : varta
             let '(nbits, stride) := if ty =? 0 then (8, 1) else if ty =? 1 then (16, 2) else (32, 4) in
             match write_vals m nbits stride a0 vals ln with
             | PErr e => PErr e
-            | POk (m', a') => write_data t m' a' (vars ++ [(name, (a0, stride))])
+            | POk (m', a') =>
+                if a' >? data_limit then PErr (PMemSize (data_limit / 4))
+                else write_data t m' a' (vars ++ [(name, (a0, stride))])
             end
       | RStrDecl name s =>
           if dup name then PErr (PDataDup ln)
@@ -198,7 +202,9 @@ Fixpoint write_data (data : list (Z * rline)) (m : memsys) (a : Z) (vars : varta
             | POk (m', a') =>
                 match dwrite m' 8 a' 0 with
                 | PErr e => PErr e
-                | POk m'' => write_data t m'' (a' + 1) (vars ++ [(name, (a0, 1))])
+                | POk m'' =>
+                    if a' + 1 >? data_limit then PErr (PMemSize (data_limit / 4))
+                    else write_data t m'' (a' + 1) (vars ++ [(name, (a0, 1))])
                 end
             end
       | RZeroDecl name v =>
@@ -207,7 +213,9 @@ Fixpoint write_data (data : list (Z * rline)) (m : memsys) (a : Z) (vars : varta
             let a0 := align4 a in
             match py_int10 v with
             | None => PErr (PSyntax ln)
-            | Some n => write_data t m (a0 + 4 * n) (vars ++ [(name, (a0, zero_elem_size n))])
+            | Some n =>
+                if a0 + 4 * n >? data_limit then PErr (PMemSize (data_limit / 4))
+                else write_data t m (a0 + 4 * n) (vars ++ [(name, (a0, zero_elem_size n))])
             end
       | _ => PErr (PDataSyntax ln)
       end
